@@ -15,10 +15,13 @@ impl ValidationContext {
                 // an arrow inside the choice's own text (`* text -> a -> b`) becomes a divert
                 // when the text is emitted: its target must exist as well
                 if let Some(text) = &c.selected_text
-                    && text.contains("->")
+                    && (text.contains("->") || text.contains("<-"))
                 {
                     for n in crate::inline::tokenize_inline_content(text)? {
-                        if matches!(n, Node::Divert(_) | Node::TunnelDivert { .. }) {
+                        if matches!(
+                            n,
+                            Node::Divert(_) | Node::TunnelDivert { .. } | Node::ThreadDivert(_)
+                        ) {
                             self.validate_node_divert(&n)?;
                         }
                     }
